@@ -46,3 +46,27 @@ func (b *ArrowBuffer) VerifBuffered() []int64 {
 	}
 	return out
 }
+
+// VerifPeekQueue returns the "id" column of every task currently in the flush queue without
+// removing anything: each task is taken and put straight back (the channel has room for it,
+// it was just taken out). Called by the driver right before Close()/Shutdown while no writer is
+// running; a worker that takes a task concurrently only makes the snapshot smaller.
+func (b *ArrowBuffer) VerifPeekQueue() [][]int64 {
+	var out [][]int64
+	n := len(b.flushQueue)
+	for i := 0; i < n; i++ {
+		select {
+		case t := <-b.flushQueue:
+			out = append(out, verifIDs(t.records))
+			select {
+			case b.flushQueue <- t:
+			default:
+				// cannot happen without a concurrent writer; do not lose the task
+				go func(t flushTask) { b.flushQueue <- t }(t)
+			}
+		default:
+			return out
+		}
+	}
+	return out
+}
